@@ -171,7 +171,7 @@ type aView struct {
 }
 
 var propOfProfile = map[string]string{
-	"c01": "C01", "nofault": "C01", "limits": "C01", "c05": "C05", "c06": "C06", "c07": "C07", "c07big": "C07", "c11": "C11", "c12": "C12",
+	"c01": "C01", "nofault": "C01", "limits": "C01", "c05": "C05", "c06": "C06", "c07": "C07", "c07big": "C07", "c11": "C11", "c11big": "C11", "c12": "C12",
 	"c17a": "C17", "c18": "C18", "c19": "C19",
 }
 
